@@ -49,8 +49,31 @@ let run_case op t =
         | "ctor_nv" -> (None, "static_vector.hpp")
         | "ctor_rg" -> (None, "static_vector.hpp")
         | _ -> raise Not_found in
-      let reversed = (o = "irg" && i1 < 0) || (o = "asr" && i0 < 0) in
-      if reversed then (leg false "static_vector.hpp", sp false) else
+      (* which check is expected to hand its location to the handler: the order of the checks as read off
+         static_vector.hpp (assert_iterator_in_range: begin() <= it, then it <= end(); then the operation's own check);
+         this table is driver-level (the C01 model has a single Contract outcome) *)
+      let idx_e = "static_cast<etl::size_t>(i)_<_static_cast<etl::size_t>(etl::end(rng)_-_etl::begin(rng))" in
+      let in_range p = if p < 0 then Some "begin()_<=_it" else if p > k then Some "it_<=_end()" else None in
+      let first_of l = match List.filter (fun x -> x <> None) l with Some e :: _ -> e | _ -> "?" in
+      let expr = match o with
+        | "pb" -> "!full()"
+        | "eb" | "emplace_back" -> if cap = 0 then "false" else "!full()"
+        | "pop" -> if cap = 0 then "false" else "!empty()"
+        | "bk" | "cbk" -> "!empty()"
+        | "fr" | "cfr" | "at" | "cat" -> idx_e
+        | "icr" | "irv" | "emp" -> if k >= cap then "!full()" else first_of [in_range i0; Some "!full()"]   (* !full() is checked first *)
+        | "inn" -> first_of [in_range i0; Some "n_<=_capacity()_-_size()"]
+        | "irg" -> first_of [in_range i0; (if i1 < 0 then Some "first_<=_last" else None);
+                             Some "size()_+_static_cast<size_type>(last_-_first)_<=_capacity()"]
+        | "era" -> if i0 < 0 then "begin()_<=_it" else "it_<=_end()"
+        | "err" -> first_of [in_range i0; in_range i1; Some "first_<=_last"]
+        | "rsv" -> "sz_<=_capacity()"
+        | "rsz" | "asn" | "ctor_n" | "ctor_nv" -> "n_<=_capacity()"
+        | "asr" | "ctor_rg" -> if i0 < 0 then "last_-_first_>=_0" else "static_cast<size_type>(last_-_first)_<=_capacity()"
+        | _ -> "?" in
+      let file = file ^ " " ^ expr in
+      let reversed = (o = "irg" && i1 < 0 && in_range i0 = None) || (o = "asr" && i0 < 0) in
+      if reversed then (leg false file, sp false) else
       (match vop with
        | Some vo ->
            let m = match step pred_of s vo with Ok _ -> "ok" | Contract -> "contract 1 # " ^ file | _ -> "ub" in
@@ -85,7 +108,11 @@ let run_case op t =
         | "bk" | "cbk" -> IvBack false
         | "tpb" -> IvTryPush (false, z_of_int 9)
         | _ -> raise Not_found in
-      let m = match iv_step s io with Ok _ -> "ok" | Contract -> "contract 1 # inplace_vector.hpp" | _ -> "ub" in
+      let expr = if cap = 0 then "false" else (match o with
+        | "at" | "cat" -> "n_<_size()"
+        | "upb" | "ueb" | "upbc" -> "size()_!=_max_size()"
+        | _ -> "not_empty()") in
+      let m = match iv_step s io with Ok _ -> "ok" | Contract -> "contract 1 # inplace_vector.hpp " ^ expr | _ -> "ub" in
       let io' = match io with IvAt (t, i) -> IvAt (t, u i) | o -> o in
       let huge = match io' with IvAt (_, i) -> Big.gt (big_of_z i) (Big.of_int 64) | _ -> false in
       let spv = if huge then None else iv_spec_step (z_of_int cap) (List.init k (fun i -> z_of_int (i + 1)), []) io' in
@@ -175,7 +202,7 @@ let run_case op t =
       let gt x y = Big.gt (big_of_z x) (big_of_z y) in
       (* where: (header, expression) of the check expected to fire if the call is stopped *)
       let of_res (file, expr) r = match r with Ok _ -> "ok" | Contract -> "contract 1 # " ^ file ^ " " ^ expr | UB _ -> "ub" | OutOfFuel -> "fuel" in
-      let by_op where vo = (of_res where (str_step s vo), sp (str_pre_ok s vo)) in
+      let by_op where vo = (of_res where (str_step s vo), sp (str_pre_doc (z_of_int k) zc vo)) in
       let z = z_of_int (Char.code 'z') in
       let idx_le = (f, "index_<=_size()") and pos_le = (f, "pos_<=_size()") and svpos = (fv, "pos_<=_size()") in
       let fits = (f, "static_cast<size_type>(last_-_first)_<=_capacity()_-_size()") in
@@ -251,8 +278,12 @@ let run_case op t =
        sp (pre_bitset_str chars (u pos) (u n) zero one))
   | "tostr" ->
       let cap = next_z t in let ty = next_str t in let v = next_z t in
-      let v = if ty = "int" then (let b = Big.erem (big_of_z v) (Big.shift_left Big.one 32) in
-                                  z_of_big (if Big.geq b (Big.shift_left Big.one 31) then Big.sub b (Big.shift_left Big.one 32) else b)) else v in
+      (* the value the call receives: the case-file number converted to the parameter type *)
+      let wrap bits signed z =
+        let m = Big.shift_left Big.one bits in
+        let b = Big.erem (big_of_z z) m in
+        z_of_big (if signed && Big.geq b (Big.shift_left Big.one (bits - 1)) then Big.sub b m else b) in
+      let v = (match ty with "int" -> wrap 32 true v | "long" -> wrap 64 true v | "uint" -> wrap 32 false v | _ -> wrap 64 false v) in
       (match to_string_guard cap v with
        | Some ok -> (lege ok "to_string.hpp" "res.error_==_etl::strings::from_integer_error::none", sp (pre_to_string cap v))
        | None -> ("fuel", sp (pre_to_string cap v)))
